@@ -13,6 +13,9 @@ from collections import deque
 import numpy as np
 
 from ..core import HarnessError, pmap, scratch_dir, rm
+from . import c09
+
+preimport = c09.preimport  # the concurrent part runs under the controlled scheduler (vf/sched.py)
 from .. import storeh
 from .. import bfs as vbfs
 
@@ -520,11 +523,20 @@ def run(ctx):
     l2 = pmap(l2_bfs, [c + (i,) for c in l2cfg for i in range(6 * len(c[1]))], chunksize=1)
     ctx.merge(l2)
     ctx.extra["l2_histories"] = sum(r["transitions"] for r in l2)
+    # the same invariants when two threads use the cache at the same time (hits racing with write-throughs / evictions)
+    cs = [("fs+cache-one|cache|same", "fs+cache-one", "cache", [[("g", 1)], [("g", 1)]]),
+          ("fs+cache-one|cache|diff", "fs+cache-one", "cache", [[("g", 1)], [("g", 2)]]),
+          ("fs+cache-one|store|diff", "fs+cache-one", "store", [[("g", 1)], [("g", 2)]]),
+          ("fs+cache-all|store|same", "fs+cache-all", "store", [[("g", 1)], [("g", 1)]])]
+    c09.concurrent_part(ctx, cs, False, "two threads hitting / filling a cache that fits one entry (or all): usage == what the resident entries "
+                        "account for, recency list consistent, final cache as after a sequential order", bound=2 if thorough else 1)
     ctx.count(evaluations=ctx.transitions)
 
 
 def replay(ctx, art):
     a = art["artefact"]
+    if "scn" in a:
+        return c09.replay_concurrent("C06", art)
     keys = [tuple(k) for k in a["keys"]]
     hist = [tuple(o) for o in a["history"]]
     if a["level"] == 1:
